@@ -38,6 +38,9 @@ func (w *World) c06Cases() []c06Case {
 		{"FEEb", "", []FeeSpec{{To: w.Fee1.String(), Bps: 3333}}},
 		{"FEEf", "", []FeeSpec{{To: w.Fee2.String(), Fixed: "2"}}},
 		{"SWAP", swapActionJSON, nil},
+		// a fee whose recipient is the orbiter account itself: whatever follows (a denomination change makes the coin
+		// invisible to a precondition on the final denomination), the coin could not leave the account — must be refused
+		{"FEEo", "", []FeeSpec{{To: w.Orb.String(), Bps: 1000}}},
 	}
 	for i := range acts {
 		if acts[i].Fees != nil {
@@ -79,6 +82,7 @@ type c06Expect struct {
 	Refuse   string
 	Saw      []string // running coin seen by each action
 	FeeSends []string // "recipient amountdenom"
+	Open     bool     // the outcome (refused / executed) is not fixed by the properties; if executed everything else is judged
 	Final    sdk.Coin
 }
 
@@ -112,6 +116,13 @@ func c06Interp(c c06Case, swapRegistered bool) c06Expect {
 		fr := feeRef(amt, a.Fees)
 		if fr.Refuse != "" {
 			e.Refuse = "fee: " + fr.Refuse
+			return e
+		}
+		if a.Name == "FEEo" && fr.Total.Sign() == 0 {
+			e.Open = true // nothing would stay on the account: refusing the recipient outright or executing are both fine
+		}
+		if a.Name == "FEEo" && fr.Total.Sign() > 0 {
+			e.Refuse = "a fee paid to the orbiter account itself never leaves it (C01)"
 			return e
 		}
 		for i, f := range a.Fees {
@@ -219,6 +230,10 @@ func checkC06(tier string) *Report {
 				rep.Violate(Violation{Kind: "executed-although-must-be-refused", Group: group, Sig: sig, Replay: replay,
 					What: fmt.Sprintf("payload executed (success ack) although it must be refused: %s [%s]", exp.Refuse, sig)})
 			}
+			return
+		}
+		if !r.Success && exp.Open {
+			rep.Outcome("open-case-refused")
 			return
 		}
 		if !r.Success {
